@@ -63,7 +63,15 @@ class BasicBlock:
         body = self._exprs
 
         if self._config.common_subexpression_elimination:
-            prefix, body = cse(body, symbols=(Symbol(f"_t{i}") for i in count()))
+            # temporaries must not reuse the name of an input (cse only skips
+            # names that occur in the expressions of this block)
+            reserved = {str(arg) for arg in self._arglist}
+            prefix, body = cse(
+                body,
+                symbols=(
+                    Symbol(f"_t{i}") for i in count() if f"_t{i}" not in reserved
+                ),
+            )
 
         temporaries = [r[0] for r in prefix]
         self._prefix = []
